@@ -347,3 +347,11 @@ func init() {
 	addMutant(Mutant{Name: "c26-relative-from-goyang-path", Property: "C26", File: "yangschema/yangschema.go",
 		Old: "cpathparts := strings.Split(util.SchemaTreePath(caller), \"/\")", New: "cpathparts := strings.Split(caller.Path(), \"/\")", Expect: "fixSchemaTreePath:caller-path"})
 }
+
+func init() {
+	// R-UNION-MEMBER (C07)
+	addMutant(Mutant{Name: "c07-unionbool-rejected", Property: "C07", File: "ytypes/leaf.go",
+		Old: "\t\tif ykind != yang.Yempty && ykind != yang.Yunion {", New: "\t\tif ykind != yang.Yempty {", Expect: "kind-arm(reflect.Bool):admits-union"})
+	addMutant(Mutant{Name: "c07-decimal-asserts-float64", Property: "C07", File: "ytypes/decimal_type.go",
+		Old: "\tvv := reflect.ValueOf(value)\n\tif vv.Kind() != reflect.Float64 {", New: "\tvv := reflect.ValueOf(value)\n\tif _, isFloat := value.(float64); !isFloat {", Expect: "validateDecimal:accepts-named-member-types"})
+}
